@@ -18,6 +18,9 @@
 (*   "P3" authentication in progress               (encrypted)             *)
 (*   "P4" authenticated, no key exchange running                           *)
 (*   "P5" authenticated, key re-exchange running                           *)
+(*   "P4n" authenticated, right after the NEWKEYS of a re-exchange (the    *)
+(*        code re-opens the EXT_INFO window at every NEWKEYS, RFC 8308     *)
+(*        allows it after the first one only; accepted without effect)     *)
 (***************************************************************************)
 EXTENDS Naturals, FiniteSets, TLC
 
@@ -25,7 +28,7 @@ CONSTANTS AuthGate,     \* TRUE: messages above 79 are refused before authentica
           RoleCheck     \* TRUE: handlers check the role of the receiver (as coded)
 
 Roles == {"client", "server"}
-Phases == {"P0", "P1", "P2", "P3", "P4", "P5"}
+Phases == {"P0", "P1", "P2", "P3", "P4", "P5", "P4n"}
 Classes == {"DISCONNECT", "IGNORE", "UNIMPLEMENTED", "DEBUG", "SERVICE_REQUEST",
             "SERVICE_ACCEPT", "EXT_INFO", "KEXINIT", "NEWKEYS", "KEXMSG", "KEXOTHER",
             "USERAUTH_REQUEST", "USERAUTH_FAILURE", "USERAUTH_SUCCESS", "USERAUTH_BANNER",
@@ -36,7 +39,7 @@ Classes == {"DISCONNECT", "IGNORE", "UNIMPLEMENTED", "DEBUG", "SERVICE_REQUEST",
 
 Encrypted(ph) == ph \notin {"P0", "P1"}
 KexRunning(ph) == ph \in {"P1", "P5"}
-AuthComplete(ph) == ph \in {"P4", "P5"}
+AuthComplete(ph) == ph \in {"P4", "P5", "P4n"}
 Above49(c) == c \in {"USERAUTH_REQUEST", "USERAUTH_FAILURE", "USERAUTH_SUCCESS",
                      "USERAUTH_BANNER", "AUTH60", "GLOBAL_REQUEST", "REQUEST_REPLY",
                      "CHANNEL_OPEN", "CHANNEL_REPLY", "CHANNEL_MSG", "UNKNOWN_MID",
@@ -68,10 +71,10 @@ Outcome(role, ph, c, strict) ==
     ELSE IF c = "SERVICE_ACCEPT" THEN
         IF (RoleCheck => role = "client") /\ ph = "P2" THEN "process" ELSE "fatal"
     ELSE IF c = "EXT_INFO" THEN
-        IF ph = "P2" THEN "process" ELSE "fatal"      \* only right after the first NEWKEYS
+        IF ph \in {"P2", "P4n"} THEN "process" ELSE "fatal"  \* only right after a NEWKEYS
     ELSE IF c = "KEXINIT" THEN
         IF KexRunning(ph) THEN "fatal"                \* "already in progress"
-        ELSE IF ph \in {"P0", "P4"} THEN "process"
+        ELSE IF ph \in {"P0", "P4", "P4n"} THEN "process"
         ELSE "process"                                \* a re-exchange may start at any encrypted phase
     ELSE IF c = "NEWKEYS" THEN
         IF KexRunning(ph) THEN "process" ELSE "fatal" \* "New keys not negotiated" (needs staged keys)
@@ -101,6 +104,9 @@ Expected(role, ph) ==
       [] ph = "P4" -> {"KEXINIT", "DISCONNECT", "GLOBAL_REQUEST", "REQUEST_REPLY", "CHANNEL_OPEN",
                        "CHANNEL_REPLY", "CHANNEL_MSG"} \cup
                       (IF role = "server" THEN {"USERAUTH_REQUEST"} ELSE {})
+      [] ph = "P4n" -> {"KEXINIT", "DISCONNECT", "GLOBAL_REQUEST", "REQUEST_REPLY", "CHANNEL_OPEN",
+                        "CHANNEL_REPLY", "CHANNEL_MSG", "EXT_INFO"} \cup
+                       (IF role = "server" THEN {"USERAUTH_REQUEST"} ELSE {})
       [] ph = "P5" -> {"KEXMSG", "NEWKEYS", "DISCONNECT", "GLOBAL_REQUEST", "REQUEST_REPLY",
                        "CHANNEL_OPEN", "CHANNEL_REPLY", "CHANNEL_MSG"}
 
